@@ -281,6 +281,36 @@ fn run_fraction_point(r: &mut Xo, out: &mut Out) -> Result<(), (String, String)>
         return Ok(());
     }
     let (l, p, t) = pts[r.below(pts.len() as u64) as usize];
+    if r.chance(1, 3) {
+        // the same for the blocking fraction: p microseconds blocked out of t since the start
+        let mut s0 = State::new(enum_map! { _ => vec![Trans(0, 1.0)] });
+        s0.action = Some(Action::BlockOutgoing {
+            bypass: false,
+            replace: false,
+            timeout: crate::gen::constant(5.0),
+            duration: crate::gen::constant(3.0),
+            limit: None,
+        });
+        let machine_limit = r.chance(1, 2);
+        let m = Machine::new(0, 0.0, 0, if machine_limit { l } else { 0.0 }, vec![s0]).map_err(|e| ("C05/construction".to_string(), format!("{e}")))?;
+        let machines = [m];
+        let bf = if machine_limit { 0.0 } else { l };
+        let start = VClock(1 << 40);
+        let mut ls = Lockstep::new(&machines, 0.0, bf, start, ScriptRng::fair(7)).map_err(|m| ("C05/construction".to_string(), m))?;
+        let id = maybenot::MachineId::from_raw(0);
+        let script = [
+            (TriggerEvent::BlockingBegin { machine: id }, 0u64),
+            (TriggerEvent::BlockingEnd, p),
+            (TriggerEvent::NormalRecv, t),
+            (TriggerEvent::TunnelRecv, t),
+        ];
+        for (i, (e, dt)) in script.iter().enumerate() {
+            let ctx = |m: String| format!("blocking fraction limit {l} ({}), point {p}us/{t}us, call {i} [{}]: {m}", if machine_limit { "machine" } else { "framework" }, fmt_events(std::slice::from_ref(e)));
+            ls.call(std::slice::from_ref(e), VClock(start.0 + dt)).map_err(|(s, m)| (s, ctx(m)))?;
+        }
+        out.bump("blocking_fraction_limits_driven_to_a_point_where_quotient_and_product_disagree");
+        return Ok(());
+    }
     let mut s0 = State::new(enum_map! { _ => vec![Trans(0, 1.0)] });
     s0.action = Some(Action::SendPadding {
         bypass: false,
